@@ -7,6 +7,11 @@ LEVEL = "model_checking"
 RESP_KINDS = ("response", "await")
 
 
+def case_of(b, beh, half):
+    ins = beh.index(b) >= half
+    return dict(mode="insertion" if ins else "deletion", depth=2, batch=2 if ins else 1, hookKeys=srvlib.hook_keys(), behaviours=[b])
+
+
 def run(ctx):
     ctx.assumptions += [
         "valid requests carry distinct random batches, so a proof that verifies for a request's own input hash cannot have been computed from another request's parameters (Groth16 soundness)",
@@ -21,18 +26,23 @@ def run(ctx):
     # spec -> code: interleavings of 2..3 requests forced on the real handler
     n = 36 if ctx.quick else 400
     beh = srvlib.generate(ctx, kinds, 2, n * 2 // 3, False, "ServerGen C13 2 clients") + srvlib.generate(ctx, kinds, 3, n // 3, False, "ServerGen C13 3 clients")
-    res = srvlib.replay(ctx, beh)
+    # half of the interleavings on a deletion server, half on an insertion server where the requests of a behaviour may share
+    # the tree state (same pre-root and start index, different commitments)
+    half = len(beh) // 2
+    res = srvlib.replay(ctx, beh[:half]) + srvlib.replay(ctx, beh[half:], mode="insertion", depth=2, batch=2)
     diverged = 0
     for b, mm, case in res:
         bad = [m for m in mm if m["kind"] in RESP_KINDS]
         if bad:
             ctx.violation("interleaving %s: %s" % (srvlib.sched_of(b), bad[0]["detail"]),
-                          dict(kind="srv-replay", cases=dict(mode="deletion", depth=2, batch=1, hookKeys=srvlib.hook_keys(), behaviours=[b]), mismatches=mm))
+                          dict(kind="srv-replay", cases=case_of(b, beh, half), mismatches=mm))
         elif [m for m in mm if m["kind"] in ("waiting", "listener")]:
             diverged += 1
     ctx.samples.append(dict(schedule=srvlib.sched_of(beh[0]), reqs=beh[0]["reqs"]))
     # code -> spec: un-gated load, N = 2..16 clients with random offsets; trace validated by TLC
-    summ, rej, nev = srvlib.load_and_validate(ctx, kinds, 6 if ctx.quick else 40, 6 if ctx.quick else 16)
+    summ, rej, nev = srvlib.load_and_validate(ctx, kinds, 4 if ctx.quick else 30, 6 if ctx.quick else 16)
+    summ2, rej2, nev2 = srvlib.load_and_validate(ctx, kinds, 4 if ctx.quick else 30, 6 if ctx.quick else 16, mode="insertion", depth=2, batch=2)
+    summ, rej, nev = summ + summ2, rej or rej2, nev + nev2
     for s in summ:
         for b in s.get("bad_responses") or []:
             ctx.violation("concurrent load round %d (%d clients): %s" % (s["round"], s["clients"], b), dict(kind="srv-load", summary=s))
